@@ -695,7 +695,9 @@ func mapEnvValueOK(info *types.Info, fd *ast.FuncDecl, stack []ast.Node, val ast
 }
 
 // c15TypedPush (R15.3): each kind case of the literal's typed push delivers that kind.
-func c15TypedPush(p *core.Program, r *core.Report, e *engines) {
+func c15TypedPush(p *core.Program, r *core.Report, e *engines) { typedPushRule(p, r, e, "R15.3") }
+
+func typedPushRule(p *core.Program, r *core.Report, e *engines, rule string) {
 	info := p.Pkg("compiler").TypesInfo
 	for _, t := range e.em.Templates["IntegerNode"] {
 		var kinds []string
@@ -723,7 +725,7 @@ func c15TypedPush(p *core.Program, r *core.Report, e *engines) {
 				if ok {
 					got = strings.ToUpper(b.Name()[:1]) + b.Name()[1:]
 				}
-				r.Check(got == k, "R15.3", key, tplPos(p, e, t), "pushes "+got, "a literal whose static type has kind "+k+" is pushed as `"+eng.ExprStr(ev.Operand.ConstExpr)+"` of type "+fmt.Sprint(pt)+": the typed program hands the callee a value of another type than the checker promised")
+				r.Check(got == k, rule, key, tplPos(p, e, t), "pushes "+got, "a literal whose static type has kind "+k+" is pushed as `"+eng.ExprStr(ev.Operand.ConstExpr)+"` of type "+fmt.Sprint(pt)+": the typed program hands the callee a value of another type than the checker promised")
 			}
 		}
 	}
